@@ -423,6 +423,46 @@ pub fn run(ctx: &Ctx) -> i32 {
         st.count(&format!("random_{name}"));
         check_case(ctx, st, &tmp, 100_000 + i, &tcs, s);
     });
+    // RegExpBuilder::from_file vs from(lines), in process (no spawn): many line-safe inputs incl. lines
+    // starting / ending with blanks, BOM-like and other ignorable characters
+    let n = if ctx.thorough { 60_000 } else { 6_000 };
+    let ff_names = ["ws", "mixed", "meta", "graph", "tokens"];
+    let ff_als: Vec<Vec<String>> = ff_names.iter().map(|a| gen::alphabet(a)).collect();
+    par_for(&ctx.run, n, |i, st| {
+        let mut rng = Rng::new(seed, 0x122_0000 + i as u64);
+        let mut tcs = gen::family(&mut rng, &ff_als[i % ff_als.len()]);
+        for t in tcs.iter_mut() {
+            *t = t.replace(['\n', '\r'], "|");
+        }
+        if tcs.last().map(|t| t.is_empty()).unwrap_or(true) {
+            tcs.push("x".to_string());
+        }
+        let s = if i % 2 == 0 { Settings::new(0) } else { gen::settings(&mut rng, ALL_FLAGS & !COLOR) };
+        let crlf = i % 3 == 0;
+        let final_nl = i % 2 == 0;
+        let path = tmp.path(&format!("ff-{i}.txt"));
+        let content = file_content(&tcs, crlf, final_nl);
+        if std::fs::write(&path, &content).is_err() {
+            return;
+        }
+        st.evaluations += 1;
+        st.count("from_file_vs_from_in_process");
+        let expected = build(&tcs, s);
+        let got = from_file_build(&path, s);
+        let _ = std::fs::remove_file(&path);
+        match (expected, got) {
+            (Ok(e), Ok(g)) => {
+                st.decided += 1;
+                st.distinct.insert(gen::hash_case(&tcs, s));
+                if e != g {
+                    let mut case = case_json(&tcs, s);
+                    case["file_content"] = json!(content);
+                    st.violation("from_file_differs_from_from", format!("from_file gives {g:?}, from(lines) gives {e:?}"), case);
+                }
+            }
+            _ => st.inconclusive("library panicked (C07's concern)"),
+        }
+    });
     // error inputs
     {
         let mut st = Stats::new();
